@@ -69,8 +69,9 @@ class ClaytonCopula(LevyCopula):
         sign_prod = 1
         sum_elmts = 0
         for elmt, sign_u in zip(us, sign_us):
-            # (float: numpy refuses a negative integer power of an integer-typed entry)
-            sum_elmts += float(abs(elmt)) ** (-self.theta)
+            # (float exponent: numpy refuses a negative integer power of an integer-typed entry; the entry stays a numpy
+            # scalar, whose power overflows to inf instead of raising)
+            sum_elmts += abs(elmt) ** (-float(self.theta))
             sign_prod *= sign_u
 
         # note that it seems to be slightly faster than:
